@@ -243,6 +243,23 @@ theorem nchangeState_blk (scope : Scope) (dest : SPath) (σ : Z) (s : NSt) (hb :
     have h2 : B.Blk σ1 { s1 with conf := r.tree } := B.blkFrame h1 rfl rfl
     exact enterAll_blk B sc cfg r.enters σ1 _ h2
 
+theorem nfinalStage_blk (scope : Scope) (dest : Option SPath) (conf0 : Forest) (σ : Z) (s : NSt) (hb : B.Blk σ s) :
+    NPost A B.Blk B.Blk σ s.log (nfinalStage sub sc cfg scope x dest conf0 s) := by
+  unfold nfinalStage
+  cases dest with
+  | none => exact NPost.ok A () hb
+  | some d =>
+    simp only []
+    cases resolveTransition cfg.root scope conf0 d with
+    | err e => exact NPost.ok A () hb
+    | oof => exact NPost.ok A () hb
+    | ok r =>
+      simp only []
+      cases nfinalCheckRoot cfg r.tree (r.enters.map (·.path)) with
+      | ok cbs => exact ncallbacks_blk B sc cfg .onFinal (by simp) _ σ s hb
+      | err e => exact NPost.err A e hb
+      | oof => trivial
+
 theorem nexecute_blk (scope : Scope) (tr : TRef) (t : NTrans) (σ : Z) (s : NSt) (hb : B.Blk σ s) :
     NPost A B.Blk B.Blk σ s.log (nexecute sub sc cfg scope x tr t s) := by
   unfold nexecute
@@ -265,6 +282,8 @@ theorem nexecute_blk (scope : Scope) (tr : TRef) (t : NTrans) (σ : Z) (s : NSt)
       | none => exact NPost.ok A () h4
       | some d => exact nchangeState_blk B sc cfg scope d σ4 s4 h4
     · intro _ σ5 s5 h5
+      refine NPost.bind (nfinalStage_blk B sc cfg scope _ _ σ5 s5 h5) ?_
+      intro _ σ5 s5 h5
       refine NPost.bind (ncallbacks_blk B sc cfg .after (by simp) _ σ5 s5 h5) ?_
       intro _ σ6 s6 h6
       refine NPost.bind (ncallbacks_blk B sc cfg .afterSC (by simp) _ σ6 s6 h6) ?_
